@@ -29,6 +29,68 @@ def shipped_calcs(ctx: Ctx):
     return [c for c in roles.problem_calcs if c.module.name.startswith('iOpt.problems')]
 
 
+def _reestablished_scratch(ctx: Ctx, reach, o) -> bool:
+    """o is a work buffer kept on the object for speed and carries nothing from one evaluation to the next: it is held
+    by exactly one attribute, never returned, and every routine on the evaluation path that touches that attribute
+    begins its use with a whole-array re-initialisation (`buf.fill(c)`, `buf[:] = c`, directly or through a local
+    alias bound in the statement before) as an unconditional statement of its body."""
+    pta = ctx.pta
+    holders = [(k[1], k[2]) for k, v in pta.pts.items() if k[0] == 'F' and o in v and isinstance(k[2], str)
+               and k[2] != '[]']
+    if len({h[1] for h in holders}) != 1 or o.kind not in ('ndarray', 'list'):
+        return False
+    fld = holders[0][1]
+
+    def mentions(st, name=None):
+        for x in ast.walk(st):
+            if name is None and isinstance(x, ast.Attribute) and (x.attr == fld or x.attr.endswith('__' + fld.lstrip('_'))
+                                                                  and x.attr.endswith(fld)):
+                return True
+            if name is not None and isinstance(x, ast.Name) and x.id == name:
+                return True
+        return False
+
+    def is_attr(e):
+        return isinstance(e, ast.Attribute) and e.attr == fld
+
+    def reinit(st, is_target) -> bool:
+        if isinstance(st, ast.Expr) and isinstance(st.value, ast.Call) and isinstance(st.value.func, ast.Attribute) \
+                and st.value.func.attr == 'fill' and is_target(st.value.func.value) and len(st.value.args) == 1 \
+                and isinstance(st.value.args[0], ast.Constant):
+            return True
+        if isinstance(st, ast.Assign) and len(st.targets) == 1 and isinstance(st.targets[0], ast.Subscript) and \
+                is_target(st.targets[0].value) and isinstance(st.value, ast.Constant):
+            sl = st.targets[0].slice
+            return (isinstance(sl, ast.Slice) and sl.lower is None and sl.upper is None and sl.step is None) or \
+                (isinstance(sl, ast.Constant) and sl.value is Ellipsis)
+        return False
+    users = 0
+    for q in sorted(reach):
+        g = ctx.ix.funcs.get(q)
+        if g is None or g.kind != 'function' or not isinstance(g.node, ast.FunctionDef) or g.name == '__init__':
+            continue
+        if not any(mentions(st) for st in g.node.body):
+            continue
+        users += 1
+        if o in pta.ret(g):
+            return False
+        body = [st for st in g.node.body if not (isinstance(st, ast.Expr) and isinstance(st.value, ast.Constant))]
+        first = next(i for i, st in enumerate(body) if mentions(st))
+        st = body[first]
+        if reinit(st, is_attr):
+            continue
+        if isinstance(st, ast.Assign) and len(st.targets) == 1 and isinstance(st.targets[0], ast.Name) and \
+                is_attr(st.value):
+            k = st.targets[0].id
+            stores = [x for x in ast.walk(g.node) if isinstance(x, ast.Name) and x.id == k and
+                      isinstance(x.ctx, ast.Store)]
+            nxt = [s2 for s2 in body[first + 1:] if mentions(s2, k)]
+            if len(stores) == 1 and nxt and reinit(nxt[0], lambda e: isinstance(e, ast.Name) and e.id == k):
+                continue
+        return False
+    return users > 0
+
+
 def r15_1_2(ctx: Ctx):
     rid = 'R15.1'
     ctx.rule(rid, 'write effects of Calculate, transitively: only .value of the supplied holder and objects '
@@ -64,6 +126,7 @@ def r15_1_2(ctx: Ctx):
                          key=ctx.key_for('R15.2', m.func, m.node))
                 continue
             bad = [o for o in m.bases if not E.fresh_in(reach, o)]
+            bad = [o for o in bad if not _reestablished_scratch(ctx, reach, o)]
             if not bad:
                 continue
             hits_point = [o for o in bad if o in point_objs and o.kind in ('ndarray', 'list', 'inst', 'ext_inst',
@@ -199,6 +262,8 @@ def r15_4_5(ctx: Ctx):
                 if o.kind in ('param',):
                     continue        # a value handed in by the caller of an internal helper: seen at its call site
                 bad.append(o)
+            if bad and E.store_is_path_local(ctx, m):
+                bad = []        # decided on the paths of the function: the target is allocated by the same activation
             if bad:
                 ctx.fail(rid, m.func.short, m.loc(),
                          f'{m.text()} (reached from {init.short}) mutates {bad[0].describe()}, which the '
@@ -222,7 +287,12 @@ def r15_6(ctx: Ctx):
     ctx.floor(rid, 'code units of iOpt/problems scanned', len(funcs), 60)
     # positive control: the same scan finds the wall-clock reads of the solve driver
     drv = C.roles_of(ctx).solve_driver
-    ctl = E.nondet_sites(ctx, [C.roles_of(ctx).fq(drv)])
+    roles = C.roles_of(ctx)
+    ctl = E.nondet_sites(ctx, [roles.fq(drv)])
+    if not ctl:
+        # the timing may sit in a small helper object of the driver's module (a stopwatch context manager)
+        ctl = E.nondet_sites(ctx, [q for q in roles.reach(drv)
+                                   if q in ctx.ix.funcs and ctx.ix.funcs[q].module is drv.module])
     ctx.floor(rid, 'positive control: nondeterminism sources found in the solve driver (datetime.now)', len(ctl), 1)
 
 
